@@ -1,6 +1,6 @@
 ---------------------------- MODULE MC_ToolEdit ----------------------------
-(* econftool edit / revert / show as a state machine over the file system: every tree made of a subset of five files
-   (vendor main, vendor drop-in, local main, local drop-in, a malformed local drop-in), every sequence of up to MaxSteps
+(* econftool edit / revert / show as a state machine over the file system: every tree made of a subset of six files
+   (vendor main, vendor drop-in, local main, local drop-in, a malformed local drop-in, a vendor drop-in with the local one's name), every sequence of up to MaxSteps
    commands  edit {drop-in, --full} x editor {keep, append a key, append a multi-line key, replace everything,
    append a malformed line, append a commented-out assignment}, revert.  Action properties state what the commands promise; every reached state is exported
    as a case (initial files, commands, expected files and `show` output) for replay against the real tool. *)
@@ -15,10 +15,12 @@ P2 == <<47, 117, 115, 114, 47, 101, 116, 99, 47, 99, 102, 103, 46, 99, 111, 110,
 P3 == <<47, 101, 116, 99, 47, 99, 102, 103, 46, 99, 111, 110, 102, 46, 100, 47, 57, 57, 45, 122, 46, 99, 111, 110, 102>>                        \* /etc/cfg.conf.d/99-z.conf
 P4 == <<47, 101, 116, 99, 47, 99, 102, 103, 46, 99, 111, 110, 102>>                                                                            \* /etc/cfg.conf
 P5 == <<47, 101, 116, 99, 47, 99, 102, 103, 46, 99, 111, 110, 102, 46, 100, 47, 53, 48, 45, 98, 97, 100, 46, 99, 111, 110, 102>>                \* /etc/cfg.conf.d/50-bad.conf
+P6 == <<47, 117, 115, 114, 47, 101, 116, 99, 47, 99, 102, 103, 46, 99, 111, 110, 102, 46, 100, 47, 57, 57, 45, 122, 46, 99, 111, 110, 102>>   \* /usr/etc/cfg.conf.d/99-z.conf (masked by P3 while that exists)
 Pool == (P1 :> << <<35, 32, 97, 98, 111, 117, 116, 32, 97>>, <<97, 61, 49>>, <<91, 83, 93>>, <<98, 61, 50>> >>)      \* "# about a" a=1 [S] b=2
      @@ (P2 :> << <<91, 83, 93>>, <<98, 61, 51>>, <<99, 61, 52>>, <<101, 61, 95, 110, 111, 110, 101, 95>> >>)          \* [S] b=3 c=4 e=_none_  (a value that is the library's own marker word)
      @@ (P3 :> << <<97, 61, 57>> >>)                                                                                   \* a=9
      @@ (P4 :> << <<97, 61, 53>>, <<100, 61, 54>> >>)                                                                  \* a=5 d=6
+     @@ (P6 :> << <<97, 61, 55>>, <<109, 61, 49>> >>)                                                                  \* a=7 m=1
      @@ (P5 :> << <<91, 98, 114, 111, 107, 101, 110>> >>)                                                              \* [broken
 Editors == { [kind |-> "keep", lines |-> <<>>],
              [kind |-> "append", lines |-> << <<110, 61, 55>> >>],                                       \* n=7
@@ -69,7 +71,13 @@ RevertRemovesDropins == last.cmd = "revert" =>
    /\ \A q \in DOMAIN fs : ~IsPrefixOf(DropDirOf(Root, Name, Sfx) \o Slash, q)
    /\ \A q \in DOMAIN last.before : ~IsPrefixOf(DropDirOf(Root, Name, Sfx) \o Slash, q) => (q \in DOMAIN fs /\ fs[q] = last.before[q])
 \* ... so after a revert only the vendor tree and the local main file decide
-RevertedShow == last.cmd = "revert" => Show(fs) = Show([q \in {p \in DOMAIN last.before : p \in {P1, P2, P4}} |-> last.before[q]])
+RevertedShow == last.cmd = "revert" => Show(fs) = Show([q \in {p \in DOMAIN last.before : p \in {P1, P2, P4, P6}} |-> last.before[q]])
+\* ... and a vendor drop-in that a local file of the same name masked is read again after the revert (its key m comes back)
+RevertUnmasks == (last.cmd = "revert" /\ P6 \in DOMAIN fs) => \E t \in Show(fs).triples : t[2] = <<109>>
+\* while the local file of the same name exists, the vendor drop-in decides nothing: the tree without it shows the same.
+\* Stated for trees WITH a main file: without one the first drop-in consulted is the merge base and is never masked (the open
+\* finding of C01/C12 that Econf.tla models as the code is; TLC refutes the unconditioned form in an initial state)
+MaskedVendorDropinIsInert == (P3 \in DOMAIN fs /\ P6 \in DOMAIN fs /\ (P1 \in DOMAIN fs \/ P4 \in DOMAIN fs)) => Show(fs) = Show([q \in DOMAIN fs \ {P6} |-> fs[q]])
 \* ---- NOT promised (TLC finds the counterexample; kept as a documented non-property, checked by cfg MC_ToolEdit_np) ----
 \* a value changed in the editor may be overridden again by a drop-in that is read after 90_econftool.conf
 ReplacedValueIsShown == (last.cmd = "edit" /\ last.ok /\ last.mode = "dropin" /\ last.ed.kind = "replace") =>
